@@ -425,7 +425,14 @@ impl DateTime {
         date_time = date_time.set_time(Time::from_nanos(nanoseconds)?);
 
         if let Some(offset) = time.offset {
-            date_time = date_time.as_offset(Offset::from_seconds(offset)?);
+            let offset = Offset::from_seconds(offset)?;
+            let (days, nanoseconds) =
+                try_remove_offset_from_dn(date_time.days, date_time.nanoseconds, offset.resolve())?;
+            date_time = Self {
+                days,
+                nanoseconds,
+                offset,
+            };
         }
 
         Ok(date_time)
